@@ -28,7 +28,8 @@ OLDER_THAN = 60
 
 
 def configs(tier):
-    ign = [[], ['ERROR'], ['SUCCESS', 'CANCELLED']]
+    # (the last one ignores every finished state: nothing at all may be deleted)
+    ign = [[], ['ERROR'], ['SUCCESS', 'CANCELLED'], ['SUCCESS', 'ERROR', 'CANCELLED']]
     out = []
     for age in ('unset', 'set'):
         for mfe in (0, 1, 2):
